@@ -7,13 +7,20 @@ package main
 import (
 	"context"
 	"fmt"
+	"sync"
 
 	"github.com/samber/ro"
 )
 
 type attachFn func(ctx context.Context, rec *Recorder) ro.Subscription
 
+// lastAttached is the observable handed to the most recent attach call: it lets other case
+// kinds (random chains, kind=prom) reuse a buildFn as a plain operator (see specOperator).
+var lastAttached any
+var attachMu sync.Mutex
+
 func attach[T any](obs ro.Observable[T]) attachFn {
+	lastAttached = obs
 	return func(ctx context.Context, rec *Recorder) ro.Subscription {
 		return obs.SubscribeWithContext(ctx, observer[T](rec))
 	}
@@ -332,6 +339,32 @@ func init() {
 		{"Clamp", v1, [][]int{{0, 1}, {-1, 2}, {1, 1}}, "", simple(2, func(p []int) intOp { return ro.Clamp(p[0], p[1]) }), true},
 		{"Reduce", v4, [][]int{{0}, {1}}, "red", redOp(ro.Reduce[int, int], ro.ReduceI[int, int], ro.ReduceWithContext[int, int], ro.ReduceIWithContext[int, int]), true},
 	}
+}
+
+// specOperator turns a `chain: true` (int -> int) entry into the real operator function.
+// Generation and execution of cases are single-threaded, so the package variable is safe.
+func specOperator(spec *OpSpec, p []int, variant string, cbs []Cb) (intOp, error) {
+	if !spec.chain {
+		return nil, fmt.Errorf("%s: not an int->int operator", spec.name)
+	}
+	// dry run on an empty source to validate parameters/callbacks once
+	if _, err := spec.build(p, variant, cbs, ro.Empty[int]()); err != nil {
+		return nil, err
+	}
+	return func(src ro.Observable[int]) ro.Observable[int] {
+		// operators may be applied at subscription time from several goroutines (ee PipeN)
+		attachMu.Lock()
+		defer attachMu.Unlock()
+		lastAttached = nil
+		if _, err := spec.build(p, variant, cbs, src); err != nil {
+			return ro.Throw[int](err)
+		}
+		out, ok := lastAttached.(ro.Observable[int])
+		if !ok {
+			return ro.Throw[int](fmt.Errorf("%s: not an int observable", spec.name))
+		}
+		return out
+	}, nil
 }
 
 func findOp(name string) *OpSpec {
